@@ -18,6 +18,27 @@ def filter_stack(rng, vocab, dirs):
     return ";".join(layers), "f" * n, []
 
 
+def not_observer_stack(rng, vocab, dirs):
+    """an `any` negation mixing exhaustive and other patterns, some aimed at the SAME directory through both, then a
+    pure observer (a filter_entry without rules)"""
+    pats = []
+    names = [d[-1] for d in dirs if d] or vocab
+    nm = walkgen.esc(rng.choice(names))
+    other = walkgen.esc(rng.choice(vocab))
+    shape = rng.choice(["both", "both", "both-prefixed", "exh-only", "mixed"])
+    if shape == "both":
+        pats = ["**/" + nm, "**/" + nm + "/**"]
+    elif shape == "both-prefixed":
+        pats = ["**/" + nm + "/**", "**/*" + nm[-1:], "*.md"]
+    elif shape == "exh-only":
+        pats = ["**/" + nm + "/**"]
+    else:
+        pats = ["**/" + other, nm + "/**", "**/*.txt"]
+    rng.shuffle(pats)
+    kind = rng.choice(["n:", "n:", "nc:"])
+    return kind + "+".join(hx(e) for e in pats) + ";f:", "No", []
+
+
 def parse_rules(stack):
     out = []
     for layer in stack.split(";"):
@@ -125,3 +146,61 @@ def run(rep, tier, seed, replay):
         else:
             rep.violation("oracle", bad, c.describe(), impl=c.impl[:500])
     rep.extra["direct_oracle_walks"] = len(direct)
+    # ---- a negation (any of exhaustive and other patterns) followed by a pure observer: nothing beneath a directory
+    # that an always-exhaustive member matches is shown downstream, and only such entries are missing
+    if replay is None or replay["input"].get("stack", "").endswith(";f:"):
+        nobs = walklib.gen_cases(seed + 2, 260 if tier == "quick" else 3000, stack=not_observer_stack, bounds="none", mode="p", link="f")
+        nobs = [c for c in nobs if c.labels["base"] in ("root", "subdir")]
+        if replay is not None:
+            nobs = [walklib.case_from(replay["input"])]
+        walklib.run_cases(nobs)
+        rep.evaluations += len(nobs)
+        walklib.correspondence_step(rep, nobs, "negation then observer")
+        h = common.harness()
+        allp = sorted({x for c in nobs for x in c.stack.split(";")[0].split(":", 1)[1].split("+")})
+        exh = {}
+        from props import lib as _lib
+        for x, line in zip(allp, h.ask(["B " + x for x in allp])):
+            exh[x] = _lib.parse_impl_build(line).get("exh")
+        reqs, owner = [], []
+        for ci, c in enumerate(nobs):
+            if not c.head.startswith("root="):
+                continue
+            base = unhx(c.f["base"]).rstrip("/")
+            root = unhx(c.f["root"])
+            sub = base[len(root):].strip("/")
+            dirs_ = [(pth, k) for pth, k, _d in walklib.rec_paths(c.f.get("rec", "-"), root) if k == "d" and (sub == "" or pth.startswith(root + "/" + sub + "/"))]
+            always = [x for x in c.stack.split(";")[0].split(":", 1)[1].split("+") if exh.get(x) == "always"]
+            for pth, _k in dirs_:
+                rel = pth[len(base) + 1:]
+                for x in always:
+                    reqs.append("M %s %s" % (x, hx(rel)))
+                    owner.append((ci, pth))
+        discarded = {}
+        for (ci, pth), line in zip(owner, h.ask(reqs)):
+            if line.startswith("match"):
+                discarded.setdefault(ci, set()).add(pth)
+        for ci, c in enumerate(nobs):
+            if not c.head.startswith("root="):
+                rep.stats["not-observer:" + c.head] += 1
+                continue
+            base = unhx(c.f["base"]).rstrip("/")
+            root = unhx(c.f["root"])
+            sub = base[len(root):].strip("/")
+            logs = c.f.get("logs", "-")
+            fed = [unhx(x.split(":")[0]).rstrip("/") for x in walklib.items(logs.split("|")[0])] if logs != "-" else []
+            gone = discarded.get(ci, set())
+            beneath = lambda pth: any(pth.startswith(g + "/") for g in gone)
+            links = [pth for pth, k, _d in walklib.rec_paths(c.f.get("rec", "-"), root) if k.startswith("l")]
+            through_link = lambda pth: any(pth.startswith(l + "/") for l in links)
+            wrong = [pth for pth in fed if beneath(pth)]
+            nodes = [pth for pth, k, _d in walklib.rec_paths(c.f.get("rec", "-"), root) if (sub == "" or pth.startswith(root + "/" + sub + "/")) and not through_link(pth)]
+            lost = [pth for pth in nodes if pth not in fed and not beneath(pth)]
+            if gone:
+                rep.distinct.add(c.req())
+            if wrong:
+                rep.violation("oracle", "the observer after the negation is fed %r, which lies beneath a directory that an always-exhaustive pattern of the negation matches" % wrong[0], c.describe(), impl=c.impl[:500])
+            elif lost:
+                rep.violation("oracle", "the observer after the negation is never fed %r although no directory above it matches an always-exhaustive pattern of the negation" % lost[0], c.describe(), impl=c.impl[:500])
+            else:
+                rep.stats["not-observer: fed exactly the entries not beneath a directory matched by an exhaustive pattern"] += 1
